@@ -1,4 +1,4 @@
-LEVELS = {'C04': 'exploration'}
+LEVELS = {'C04': 'exploration', 'C11': 'exploration'}
 NOT_DECIDED = {
     'C12': ['how often the main loop polls the timers (scheduling granularity) is not decided: clauses are stated "at the next call"'],
     'C09': ['route classification prefix of messages() and next-hop grouping of packed_reach_attributes: bounded only (segment contracts abstract them)', 'NLRI encoders by assumed contract here (their own contracts belong to C01/C15)'],
@@ -9,5 +9,6 @@ NOT_DECIDED = {
     'C07': ['Capabilities objects abstract; ADD-PATH RequirePath.setup, OPEN encode/decode, Capabilities.new bounded only'],
     'C04': ['bounded only: no deductive obligation on the RIB representation invariant yet; watchdog operations not explored'],
     'C17': ['the applies-the-difference half (replace_reload, Reactor.reload, _commit_reload) is bounded only', 'assumed: _link()/validate() do not raise after the commit'],
+    'C11': ['bounded only: crash points enumerated, not eliminated by an invariant; transport is a recording stub'],
     'C06': ['the kernel delivers the byte stream faithfully (recv callee contract); interference from other asyncio tasks at await is not decided'],
 }
